@@ -498,6 +498,10 @@ func (x *Exec) applyContract(st *State, fr *Frame, ct *Contract, fn *ssa.Functio
 		}
 	}
 	old := st.snapshot()
+	// a callee whose contract speaks about now() reads the clock
+	if contractUsesNow(ct) {
+		x.readClock(st)
+	}
 	x.evalLets(st, old, ct, env)
 	for _, rq := range ct.Requires {
 		x.obligeParts(st, old, nil, ct, rq.E, env, x.obName(fr, "pre."+ct.Key+"."+clauseLabel(rq)+"."+cc.Site))
@@ -515,6 +519,11 @@ func (x *Exec) applyContract(st *State, fr *Frame, ct *Contract, fn *ssa.Functio
 		res = append(res, v)
 		env[names[i]] = v
 	}
+	defer func() {
+		for _, v := range res {
+			x.boundReachable(st, v, 0)
+		}
+	}()
 	// clock: a contracted callee may read the clock
 	for _, en := range ct.Ensures {
 		if !en.forProp(x.Prop) {
@@ -804,5 +813,81 @@ func (x *Exec) assumeFreshOnlyFrames(st *State) {
 			init = sym(init)
 		}
 		st.addCmd(fmt.Sprintf("(assert (forall ((r Int)) (! (=> (<= r %s) (= (select %s r) (select %s r))) :pattern ((select %s r)))))", st.WM0.S, cur, init, cur))
+	}
+}
+
+func contractUsesNow(ct *Contract) bool {
+	for _, l := range ct.Lets {
+		if exprUsesNow(l.E) {
+			return true
+		}
+	}
+	for _, c := range ct.Ensures {
+		if strings.Contains(c.Src, "now(") {
+			return true
+		}
+	}
+	return false
+}
+
+func exprUsesNow(e Expr) bool {
+	switch v := e.(type) {
+	case ECall:
+		if v.Fn == "now" {
+			return true
+		}
+		for _, a := range v.Args {
+			if exprUsesNow(a) {
+				return true
+			}
+		}
+	case EBin:
+		return exprUsesNow(v.L) || exprUsesNow(v.R)
+	case EUn:
+		return exprUsesNow(v.X)
+	case ESel:
+		return exprUsesNow(v.X)
+	}
+	return false
+}
+
+// boundReachable: everything reachable from a value returned by a call was
+// allocated before the call returned (reference-valued fields of returned
+// module messages are bounded by the current watermark).
+func (x *Exec) boundReachable(st *State, v Val, depth int) {
+	if v.K != VScalar || v.GoT == nil || depth > 2 {
+		return
+	}
+	mt, ok := isTypesMsgPtr(v.GoT)
+	if !ok {
+		return
+	}
+	wm := x.define(st, "wmret", Add(st.AllocBase, IntT(int64(st.AllocN))))
+	for _, f := range protoFields(mt) {
+		fv := x.loadAddrPure(st, &Addr{Prefix: fieldPrefix(mt, f.Name()), Ref: v.T, T: f.Type()})
+		var r Term
+		switch fv.K {
+		case VScalar:
+			if fv.T.Sort != SInt {
+				continue
+			}
+			switch f.Type().Underlying().(type) {
+			case *types.Pointer, *types.Slice, *types.Map:
+				r = fv.T
+			default:
+				continue
+			}
+		case VSlice:
+			r = fv.Ref
+		default:
+			continue
+		}
+		if _, lit := litInt(r); lit {
+			continue
+		}
+		st.assume(Implies(Neq(v.T, IntT(0)), And(Ge(r, IntT(0)), Le(r, wm))))
+		if _, ok := isTypesMsgPtr(f.Type()); ok {
+			x.boundReachable(st, fv, depth+1)
+		}
 	}
 }
